@@ -3,6 +3,8 @@ package main
 import (
 	"errors"
 	"fmt"
+	"net"
+	"os"
 	"strings"
 	"sync"
 	"time"
@@ -80,6 +82,43 @@ func runC06(c *Ctx) error {
 			if err := inboundOne(c, spec, stream, 1, fmt.Sprintf("close short body=%x server=%v", body, server), "C06"); err != nil {
 				return err
 			}
+		}
+	}
+	// ---- (a2) the reply to a peer's Close cannot be written (the peer is gone, a write deadline expired): the transport
+	// is closed all the same and the application is told once
+	for _, server := range []bool{true, false} {
+		for _, fault := range []string{"write-error", "dead-link"} {
+			h := &recHandler{}
+			conn, tap, err := connSpec{Server: server}.open(h)
+			if err != nil {
+				return err
+			}
+			tap.mu.Lock()
+			if fault == "write-error" {
+				tap.failWrite, tap.writeErr = tap.nWrite, os.ErrDeadlineExceeded
+			} else {
+				tap.writeDeadFrom, tap.writeErr = tap.nWrite, &net.OpError{Op: "write", Net: "tcp", Err: errors.New("broken pipe")}
+			}
+			tap.mu.Unlock()
+			tap.feed(encodeFrame(frameSpec{Fin: true, Opcode: 8, Masked: server, Key: [4]byte{9, 9, 9, 9}, Payload: []byte{0x03, 0xe8, 'b', 'y', 'e'}, DeclLen: -1}))
+			// the stream does NOT end: only the write side is broken
+			tag := fmt.Sprintf("reply to a peer Close cannot be written server=%v fault=%s", server, fault)
+			returned := runWithTimeout(5*time.Second, conn.ReadLoop)
+			closed, ncl := tap.isClosed()
+			closes := 0
+			for _, e := range h.events() {
+				if e.Kind == "close" {
+					closes++
+				}
+			}
+			if !returned || !closed || ncl != 1 || closes != 1 {
+				c.oracleFail(fmt.Sprintf("after a peer Close whose reply could not be written: read loop returned=%v, transport closed=%v (%d Close calls), OnClose x%d [%s]", returned, closed, ncl, closes, tag),
+					"peer-close-transport", map[string]any{"tag": tag})
+			}
+			if !closed {
+				_ = tap.Close()
+			}
+			c.count(tag, true, "kind=peer-close-reply-fault")
 		}
 	}
 	// ---- (b) local closes
